@@ -7,3 +7,4 @@ import RaftWal.Props.C13
 #print axioms RaftWal.C13.dropped_files_closed
 #print axioms RaftWal.C13.closed_only_by_finalizer
 #print axioms RaftWal.C13.every_acquire_is_released_once
+#print axioms RaftWal.C13.refcount_only_through_acquire_release
